@@ -263,6 +263,11 @@ def run_check(prop_id, tier, seed):
     t0 = time.time()
     check = load_check(prop_id)
     findings = load_findings(prop_id)
+    rdir = os.path.join(ROOT, 'replays')
+    if os.path.isdir(rdir):
+        for name in os.listdir(rdir):
+            if name.startswith(prop_id + '-'):
+                os.remove(os.path.join(rdir, name))
     total = Stats()
     parts = {}
     violations = []  # (case, verdict)
